@@ -282,3 +282,58 @@ CONTRACTS[(PATH, 'levenshtein_distance_substring')] = Contract(
             'forall(lambda j: implies(c < j and j <= ' + _M2 + ', dist[j] == PRE(i, j)))']),
     },
 )
+
+
+# ---------------------------------------------------------------------------------------------------
+# ErrorsSummary.aggregate: every total is the sum over the list
+
+ES_PATH = 'pero_ocr/error_summary.py'
+NERR = z3.Int('n_summaries')
+ERR = z3.Function('SUMMARY', z3.IntSort(), z3.IntSort())
+NKEYS = z3.Function('n_confusion_keys', z3.IntSort(), z3.IntSort())
+CKEY = z3.Function('confusion_key', z3.IntSort(), z3.IntSort(), Val)
+TOTALS = ['nb_lines_summarized', 'ref_len', 'nb_errors', 'nb_subs', 'nb_inss', 'nb_dels']
+
+
+def _errors(ex, st, n):
+    st.assume(NERR >= 0)
+    return ArrayVal((NERR,), lambda i: ObjRef(ERR(to_int(i)), 'ErrorsSummary'), 'obj')
+
+
+def _confusions(ex, st, obj):
+    from pyvc import lib
+    n = NKEYS(obj.r)
+    st.assume(n >= 0)
+    d = lib.DictVal(lambda k: True, lambda k: z3.Function('CONFUSIONS', z3.IntSort(), Val, Val)(obj.r, k))
+    d.keys_arr = ArrayVal((n,), lambda j: CKEY(obj.r, to_int(j)), 'obj')
+    return d
+
+
+def _summary_ctor(ex, st, *args):
+    names = ['nb_lines_summarized', 'ref_len', 'nb_errors', 'nb_subs', 'nb_inss', 'nb_dels', 'confusions', 'ending_errors']
+    return Record(dict(zip(names, args)), 'ErrorsSummary')
+
+
+def aggregate_theory(ex, st):
+    names = {}
+    for f in TOTALS:
+        H = ex.initial_field(st, f)[0]
+        S = z3.Function('SUM_' + f, z3.IntSort(), z3.IntSort())
+
+        def defn(k, S=S, H=H):
+            k = to_int(k)
+            return z3.And(z3.Implies(k == 0, S(k) == 0), z3.Implies(k >= 1, S(k) == S(k - 1) + z3.Select(H, ERR(k - 1))))
+        names['SUM_' + f] = SpecFunc(lambda k, S=S: S(to_int(k)), 'SUM_' + f, defn=defn)
+    return names, []
+
+
+CONTRACTS[(ES_PATH, 'ErrorsSummary.aggregate')] = Contract(
+    params={'errors': _errors}, theory=aggregate_theory,
+    fields=dict({f: 'int' for f in TOTALS}, confusions='py', ending_errors='val'),
+    opaque=['empty_summary'],
+    ghosts={'pyinit:confusions': _confusions, 'ctor:ErrorsSummary': _summary_ctor,
+            'lib:collections.defaultdict': lambda ex, st, *a: z3.Const('total_confusions', Val)},
+    ensures=['result.%s == SUM_%s(len(errors))' % (f, f) for f in TOTALS],
+    loops={0: LoopSpec(counter='kk', inv=['%s == SUM_%s(kk)' % ('total_' + f.replace('nb_lines_summarized', 'nb_lines'), f) for f in TOTALS]),
+           1: LoopSpec(counter='kc', inv=[])},
+)
